@@ -1,173 +1,729 @@
+// c20: runs the real layer2 msg server, EndBlocker and keeper-level LP functions on generated
+// histories (several users create / bond / reclaim, bootstrap success and failure, LP messages,
+// keeper-level swap / redeem / convert) and writes the observations for the Coq model
+// (Model/Layer2.v) and the spec checker (Model/C20Check.v).
 package main
 
 import (
+	"flag"
 	"fmt"
+	"os"
+	"strings"
+	"time"
 
 	"verif/harness/hx"
 
 	govtypes "github.com/KiraCore/sekai/x/gov/types"
 	l2keeper "github.com/KiraCore/sekai/x/layer2/keeper"
 	l2types "github.com/KiraCore/sekai/x/layer2/types"
+	spendingtypes "github.com/KiraCore/sekai/x/spending/types"
 	sdk "github.com/cosmos/cosmos-sdk/types"
 	authtypes "github.com/cosmos/cosmos-sdk/x/auth/types"
 	minttypes "github.com/cosmos/cosmos-sdk/x/mint/types"
 )
 
+const nUsers = 5 // users 0..2 ordinary, 3 holds the bond-free creation permission, 4 is the team reserve
+const startBal = int64(2_000_000_000)
+
+type params struct {
+	Denom    string `json:"denom"`
+	LpOK     bool   `json:"lp_ok"`
+	Ratio    string `json:"ratio"`
+	Premint  int64  `json:"premint"`
+	Postmint int64  `json:"postmint"`
+	Fee      string `json:"fee"`
+}
+
+type jop struct {
+	Op      string  `json:"op"`
+	U       int     `json:"u"`
+	Name    string  `json:"name"`
+	Name2   string  `json:"name2,omitempty"`
+	Den     string  `json:"den,omitempty"`
+	Foreign bool    `json:"foreign,omitempty"`
+	Amt     int64   `json:"amt"`
+	Fee     string  `json:"fee,omitempty"`
+	Kind    int     `json:"kind,omitempty"`
+	P       *params `json:"params,omitempty"`
+}
+
+type jdapp struct {
+	Name   string `json:"name"`
+	Status int    `json:"status"`
+	Total  string `json:"total"`
+}
+type jbond struct {
+	Dapp string `json:"dapp"`
+	U    int    `json:"u"`
+	Amt  string `json:"amt"`
+}
+type jlp struct {
+	Den    string   `json:"den"`
+	Supply string   `json:"supply"`
+	Mod    string   `json:"mod"`
+	Spend  string   `json:"spend"`
+	Users  []string `json:"users"`
+}
+type jstep struct {
+	jop
+	OK    bool     `json:"ok"`
+	Err   string   `json:"err,omitempty"`
+	Now   int64    `json:"now"`
+	Dapps []jdapp  `json:"dapps"`
+	Bonds []jbond  `json:"bonds"`
+	Mod   string   `json:"mod"`
+	Bals  []string `json:"bals"`
+	Lp    []jlp    `json:"lp,omitempty"`
+}
+type jcase struct {
+	Kind  string  `json:"kind"`
+	Min   uint64  `json:"min_raw"`
+	Max   uint64  `json:"max_raw"`
+	Dur   uint64  `json:"duration"`
+	Steps []jstep `json:"steps"`
+}
+
+type env struct {
+	k      l2keeper.Keeper
+	ms     l2types.MsgServer
+	bank   interface {
+		GetBalance(ctx sdk.Context, addr sdk.AccAddress, denom string) sdk.Coin
+		GetSupply(ctx sdk.Context, denom string) sdk.Coin
+	}
+	users  []sdk.AccAddress
+	ustr   []string
+	mod    sdk.AccAddress
+	spend  sdk.AccAddress
+	setCfg func(c sdk.Context, min, max, dur uint64)
+}
+
+// one history on a private cache of the base state
+type hist struct {
+	e     *env
+	c     sdk.Context
+	t0    int64
+	now   int64
+	dens  []string // LP denoms seen (valid ones)
+	coq   []string
+	steps []jstep
+	dist  hx.Counter
+	denN  int
+}
+
+func (h *hist) uidx(s string) int {
+	for i, u := range h.e.ustr {
+		if u == s {
+			return i
+		}
+	}
+	return -1
+}
+
+func (h *hist) observe(op jop, coqOp string, ok bool, errs string) {
+	e := h.e
+	st := jstep{jop: op, OK: ok, Err: errs, Now: h.now}
+	var cd, cb, cl []string
+	for _, d := range e.k.GetAllDapps(h.c) {
+		st.Dapps = append(st.Dapps, jdapp{d.Name, int(d.Status), d.TotalBond.Amount.String()})
+		cd = append(cd, hx.Tuple(hx.Str(d.Name), hx.Z(int64(d.Status)), hx.ZInt(d.TotalBond.Amount)))
+	}
+	for _, b := range e.k.GetAllUserDappBonds(h.c) {
+		ui := h.uidx(b.User)
+		st.Bonds = append(st.Bonds, jbond{b.DappName, ui, b.Bond.Amount.String()})
+		us := hx.Str(b.User)
+		if ui >= 0 {
+			us = fmt.Sprintf("U%d", ui)
+		}
+		cb = append(cb, hx.Tuple(hx.Str(b.DappName), us, hx.ZInt(b.Bond.Amount)))
+	}
+	m := e.bank.GetBalance(h.c, e.mod, "ukex").Amount
+	st.Mod = m.String()
+	var bals []string
+	for _, u := range e.users {
+		b := e.bank.GetBalance(h.c, u, "ukex").Amount
+		st.Bals = append(st.Bals, b.String())
+		bals = append(bals, hx.ZInt(b))
+	}
+	for _, den := range h.dens {
+		sup := e.bank.GetSupply(h.c, den).Amount
+		if sup.IsZero() {
+			continue
+		}
+		l := jlp{Den: den, Supply: sup.String(), Mod: e.bank.GetBalance(h.c, e.mod, den).Amount.String(), Spend: e.bank.GetBalance(h.c, e.spend, den).Amount.String()}
+		var us []string
+		for _, u := range e.users {
+			b := e.bank.GetBalance(h.c, u, den).Amount
+			l.Users = append(l.Users, b.String())
+			us = append(us, hx.ZInt(b))
+		}
+		st.Lp = append(st.Lp, l)
+		cl = append(cl, hx.Tuple(hx.Str(den), hx.ZInt(sup), hx.ZInt(e.bank.GetBalance(h.c, e.mod, den).Amount), hx.ZInt(e.bank.GetBalance(h.c, e.spend, den).Amount), hx.List(us)))
+	}
+	h.steps = append(h.steps, st)
+	h.coq = append(h.coq, fmt.Sprintf("(%s, mkObs %s %s %s %s %s %s)", coqOp, hx.B(ok), hx.List(cd), hx.List(cb), hx.ZInt(m), hx.List(bals), hx.List(cl)))
+	h.dist.Inc(op.Op + ":" + map[bool]string{true: "accepted", false: "rejected"}[ok])
+}
+
+// tx semantics: run f on a cache, keep it only when it neither failed nor panicked
+func (h *hist) tx(f func(c sdk.Context) error) (bool, string) {
+	cc, write := h.c.CacheContext()
+	var err error
+	p := hx.Try(func() { err = f(cc) })
+	if p != "" {
+		return false, "panic: " + p
+	}
+	if err != nil {
+		return false, err.Error()
+	}
+	write()
+	return true, ""
+}
+
+func coin(den string, amt int64) sdk.Coin { return sdk.Coin{Denom: den, Amount: sdk.NewInt(amt)} }
+
+func decStr(s string) sdk.Dec { return sdk.MustNewDecFromStr(s) }
+
+func (h *hist) newParams(r *hx.Rng, lpBig bool) params {
+	h.denN++
+	p := params{Denom: fmt.Sprintf("dn%d", h.denN), LpOK: true, Ratio: []string{"0.5", "1", "0.001", "0.333333333333333333", "0", "2.5"}[r.Intn(6)],
+		Premint: []int64{0, 7, 1000}[r.Intn(3)], Postmint: []int64{11, 1, 500000}[r.Intn(3)], Fee: []string{"0.01", "0", "0.003", "0.5", "1"}[r.Intn(5)]}
+	if lpBig {
+		p.Postmint = []int64{100000000, 5000000, 40}[r.Intn(3)]
+		p.Ratio = []string{"0.5", "1", "0.001", "0.00001", "3"}[r.Intn(5)]
+	}
+	if r.Chance(4) {
+		p.Denom = "bad denom!"
+	}
+	p.LpOK = sdk.ValidateDenom("lp/"+p.Denom) == nil
+	return p
+}
+
+func (h *hist) create(u int, name string, amt int64, foreign bool, p params) bool {
+	e := h.e
+	den := "ukex"
+	if foreign {
+		den = "foreign"
+	}
+	d := l2types.Dapp{Name: name, Denom: p.Denom, Pool: l2types.LpPoolConfig{Ratio: decStr(p.Ratio), Drip: 100},
+		Issuance:   l2types.IssuanceConfig{Premint: sdk.NewInt(p.Premint), Postmint: sdk.NewInt(p.Postmint)},
+		VoteQuorum: sdk.NewDecWithPrec(3, 1), PoolFee: decStr(p.Fee), TeamReserve: e.ustr[4], TotalBond: coin("ukex", 0)}
+	ok, errs := h.tx(func(c sdk.Context) error {
+		_, err := e.ms.CreateDappProposal(sdk.WrapSDKContext(c), &l2types.MsgCreateDappProposal{Sender: e.ustr[u], Dapp: d, Bond: coin(den, amt)})
+		return err
+	})
+	if p.LpOK {
+		found := false
+		for _, x := range h.dens {
+			found = found || x == "lp/"+p.Denom
+		}
+		if !found {
+			h.dens = append(h.dens, "lp/"+p.Denom)
+		}
+	}
+	pp := p
+	h.observe(jop{Op: "create", U: u, Name: name, Amt: amt, Foreign: foreign, P: &pp},
+		fmt.Sprintf("OCreate U%d %s %s %s %s (mkParams %s %s %s %s %s %s U4)", u, hx.B(u == 3), hx.B(foreign), hx.Str(name), hx.Z(amt),
+			hx.Str("lp/"+p.Denom), hx.B(p.LpOK), hx.ZBig(decStr(p.Ratio).BigInt()), hx.Z(p.Premint), hx.Z(p.Postmint), hx.ZBig(decStr(p.Fee).BigInt())), ok, errs)
+	return ok
+}
+
+func (h *hist) bond(u int, name string, amt int64, foreign bool) bool {
+	e := h.e
+	den := "ukex"
+	if foreign {
+		den = "foreign"
+	}
+	ok, errs := h.tx(func(c sdk.Context) error {
+		_, err := e.ms.BondDappProposal(sdk.WrapSDKContext(c), &l2types.MsgBondDappProposal{Sender: e.ustr[u], DappName: name, Bond: coin(den, amt)})
+		return err
+	})
+	h.observe(jop{Op: "bond", U: u, Name: name, Amt: amt, Foreign: foreign}, fmt.Sprintf("OBond U%d %s %s %s", u, hx.Str(name), hx.B(foreign), hx.Z(amt)), ok, errs)
+	return ok
+}
+
+func (h *hist) reclaim(u int, name string, amt int64, foreign bool) bool {
+	e := h.e
+	den := "ukex"
+	if foreign {
+		den = "foreign"
+	}
+	ok, errs := h.tx(func(c sdk.Context) error {
+		_, err := e.ms.ReclaimDappBondProposal(sdk.WrapSDKContext(c), &l2types.MsgReclaimDappBondProposal{Sender: e.ustr[u], DappName: name, Bond: coin(den, amt)})
+		return err
+	})
+	h.observe(jop{Op: "reclaim", U: u, Name: name, Amt: amt, Foreign: foreign}, fmt.Sprintf("OReclaim U%d %s %s %s", u, hx.Str(name), hx.B(foreign), hx.Z(amt)), ok, errs)
+	return ok
+}
+
+func (h *hist) tick(dt int64) bool {
+	old := h.c
+	h.now += dt
+	h.c = h.c.WithBlockTime(time.Unix(h.t0+h.now, 0).UTC()).WithBlockHeight(h.c.BlockHeight() + 1)
+	ok, errs := h.tx(func(c sdk.Context) error { h.e.k.EndBlocker(c); return nil })
+	if !ok {
+		h.now -= dt
+		h.c = old
+	}
+	h.observe(jop{Op: "tick", Amt: dt}, fmt.Sprintf("OTick %s", hx.Z(dt)), ok, errs)
+	return ok
+}
+
+// kind 0 swap, 1 redeem, 2 convert -- through the msg server
+func (h *hist) lpmsg(kind, u int, name, name2, den string, amt int64, slip string) bool {
+	e := h.e
+	ok, errs := h.tx(func(c sdk.Context) error {
+		var err error
+		switch kind {
+		case 0:
+			_, err = e.ms.SwapDappPoolTx(sdk.WrapSDKContext(c), &l2types.MsgSwapDappPoolTx{Sender: e.ustr[u], DappName: name, Token: coin(den, amt), Slippage: decStr(slip)})
+		case 1:
+			_, err = e.ms.RedeemDappPoolTx(sdk.WrapSDKContext(c), &l2types.MsgRedeemDappPoolTx{Sender: e.ustr[u], DappName: name, LpToken: coin(den, amt), Slippage: decStr(slip)})
+		default:
+			_, err = e.ms.ConvertDappPoolTx(sdk.WrapSDKContext(c), &l2types.MsgConvertDappPoolTx{Sender: e.ustr[u], DappName: name, TargetDappName: name2, LpToken: coin(den, amt), Slippage: decStr(slip)})
+		}
+		return err
+	})
+	h.observe(jop{Op: "lpmsg", Kind: kind, U: u, Name: name, Name2: name2, Den: den, Amt: amt, Fee: slip},
+		fmt.Sprintf("OLpMsg %d U%d %s %s %s %s", kind, u, hx.Str(name), hx.Str(name2), hx.Str(den), hx.Z(amt)), ok, errs)
+	return ok
+}
+
+func (h *hist) kswap(u int, name string, foreign bool, amt int64, fee string) bool {
+	e := h.e
+	den := "ukex"
+	if foreign {
+		den = "foreign"
+	}
+	ok, errs := h.tx(func(c sdk.Context) error {
+		d := e.k.GetDapp(c, name)
+		if d.Name == "" {
+			return fmt.Errorf("no dapp")
+		}
+		_, err := e.k.SwapDappPoolTx(c, e.users[u], d, decStr(fee), coin(den, amt))
+		return err
+	})
+	h.observe(jop{Op: "kswap", U: u, Name: name, Amt: amt, Foreign: foreign, Fee: fee},
+		fmt.Sprintf("KSwap U%d %s %s %s %s", u, hx.Str(name), hx.B(foreign), hx.Z(amt), hx.ZBig(decStr(fee).BigInt())), ok, errs)
+	return ok
+}
+
+func (h *hist) kredeem(u int, name, den string, amt int64, fee string) bool {
+	e := h.e
+	ok, errs := h.tx(func(c sdk.Context) error {
+		d := e.k.GetDapp(c, name)
+		if d.Name == "" {
+			return fmt.Errorf("no dapp")
+		}
+		_, err := e.k.RedeemDappPoolTx(c, e.users[u], d, decStr(fee), coin(den, amt))
+		return err
+	})
+	h.observe(jop{Op: "kredeem", U: u, Name: name, Den: den, Amt: amt, Fee: fee},
+		fmt.Sprintf("KRedeem U%d %s %s %s %s", u, hx.Str(name), hx.Str(den), hx.Z(amt), hx.ZBig(decStr(fee).BigInt())), ok, errs)
+	return ok
+}
+
+func (h *hist) kconvert(u int, name, name2, den string, amt int64) bool {
+	e := h.e
+	ok, errs := h.tx(func(c sdk.Context) error {
+		d1, d2 := e.k.GetDapp(c, name), e.k.GetDapp(c, name2)
+		if d1.Name == "" || d2.Name == "" {
+			return fmt.Errorf("no dapp")
+		}
+		_, err := e.k.ConvertDappPoolTx(c, e.users[u], d1, d2, coin(den, amt))
+		return err
+	})
+	h.observe(jop{Op: "kconvert", U: u, Name: name, Name2: name2, Den: den, Amt: amt},
+		fmt.Sprintf("KConvert U%d %s %s %s %s", u, hx.Str(name), hx.Str(name2), hx.Str(den), hx.Z(amt)), ok, errs)
+	return ok
+}
+
+func (h *hist) userBond(name string, u int) int64 {
+	b := h.e.k.GetUserDappBond(h.c, name, h.e.ustr[u])
+	if b.User == "" || b.Bond.Amount.IsNil() {
+		return 0
+	}
+	return b.Bond.Amount.Int64()
+}
+func (h *hist) lpDenom(name string) string { return h.e.k.GetDapp(h.c, name).LpToken() }
+func (h *hist) lpBal(u int, den string) int64 {
+	if sdk.ValidateDenom(den) != nil {
+		return 0
+	}
+	return h.e.bank.GetBalance(h.c, h.e.users[u], den).Amount.Int64()
+}
+
+var cleanNames = [][]string{{"alpha", "beta", "gamma"}, {"dex", "amm", "zk"}, {"one", "two", "three"}, {"Qa", "qb", "r_1"}}
+
+// ---------------------------------------------------------------- generators
+
+// bootstrap phase with users 0..3; feature: "", "zero", "prefix", "prefixk", "empty", "max"
+func (h *hist) bootstrap(r *hx.Rng, names []string, minThr, maxThr int64, nops int, feature string, lpBig bool) {
+	for i, n := range names {
+		u := r.Intn(4)
+		amt := minThr/100 + r.Range(0, minThr/2)
+		if r.Chance(25) {
+			amt = minThr + r.Range(0, (maxThr-minThr)/2)
+		}
+		if u == 3 && r.Chance(50) {
+			amt = r.Range(1, minThr/100)
+		}
+		if feature == "max" && i == 0 {
+			amt = maxThr + r.Range(1, 1000000)
+		}
+		h.create(u, n, amt, false, h.newParams(r, lpBig))
+		if r.Chance(30) {
+			h.tick(r.Range(0, 30))
+		}
+	}
+	for i := 0; i < nops; i++ {
+		n := names[r.Intn(len(names))]
+		u := r.Intn(4)
+		switch x := r.Intn(20); {
+		case x < 8:
+			amt := r.Range(1, minThr/2)
+			if r.Chance(15) {
+				amt = r.Range(minThr/2, maxThr)
+			}
+			h.bond(u, n, amt, false)
+		case x < 13:
+			cur := h.userBond(n, u)
+			if cur > 1 {
+				h.reclaim(u, n, r.Range(1, cur-1), false)
+			} else {
+				h.reclaim(u, n, r.Range(1, 1000), false)
+			}
+		case x < 14:
+			h.tick(r.Range(0, 40))
+		case x < 15: // adversarial amounts
+			amt := []int64{0, -1, -1000000, maxThr + 1, 1 << 40}[r.Intn(5)]
+			if r.Bool() {
+				h.bond(u, n, amt, false)
+			} else {
+				h.reclaim(u, n, amt, false)
+			}
+		case x < 16: // other people's / unknown ids
+			nn := []string{"nosuch", "", n + "x", strings.ToUpper(n)}[r.Intn(4)]
+			if r.Bool() {
+				h.bond(u, nn, r.Range(1, 1000), false)
+			} else {
+				h.reclaim(u, nn, r.Range(1, 1000), false)
+			}
+		case x < 17: // over-reclaim, foreign denom
+			if r.Bool() {
+				h.reclaim(u, n, h.userBond(n, u)+r.Range(1, 5), false)
+			} else if r.Bool() {
+				h.bond(u, n, r.Range(1, 1000), true)
+			} else {
+				h.reclaim(u, n, r.Range(1, 1000), true)
+			}
+		case x < 18: // duplicate / cheap / foreign creation
+			switch r.Intn(3) {
+			case 0:
+				h.create(u, n, minThr/100+5, false, h.newParams(r, false))
+			case 1:
+				h.create(r.Intn(3), fmt.Sprintf("%sq%d", n, i), minThr/100-1-r.Range(0, 5), false, h.newParams(r, false))
+			default:
+				h.create(r.Intn(3), fmt.Sprintf("%sf%d", n, i), minThr, true, h.newParams(r, false))
+			}
+		case x < 19: // top up to the maximum exactly / one above
+			d := h.e.k.GetDapp(h.c, n)
+			if d.Name != "" {
+				room := maxThr - d.TotalBond.Amount.Int64()
+				if room > 0 && room < startBal/2 {
+					h.bond(u, n, room+int64(r.Intn(2)), false)
+				}
+			}
+		default:
+			h.bond(u, n, r.Range(1, minThr), false)
+		}
+	}
+	switch feature {
+	case "zero": // a bonder takes everything back: a zero-amount record stays behind
+		n := names[0]
+		u := r.Intn(4)
+		if h.userBond(n, u) == 0 {
+			h.bond(u, n, 500+r.Range(0, 100), false)
+		}
+		h.reclaim(u, n, h.userBond(n, u), false)
+	}
+}
+
+func (h *hist) finishCase(kind string, min, max, dur uint64) (string, jcase) {
+	var bals []string
+	for range h.e.users {
+		bals = append(bals, hx.Z(startBal))
+	}
+	s := fmt.Sprintf("CHist (mkConfig %d %d %d) %s [%s]", min, max, dur, hx.List(bals), strings.Join(h.coq, "; "))
+	return s, jcase{Kind: kind, Min: min, Max: max, Dur: dur, Steps: h.steps}
+}
+
 func main() {
+	outDir := flag.String("out", ".", "output directory")
+	n := flag.Int("n", 300, "number of histories")
+	flag.Parse()
+	out := hx.Out{Dir: *outDir}
+	seed := hx.Seed()
+	r := hx.NewRng(seed)
+
 	app := hx.NewApp()
-	ctx := hx.Ctx(app, 10, 1700000000)
-	k := app.Layer2Keeper
-	ms := l2keeper.NewMsgServerImpl(k)
-	props := app.CustomGovKeeper.GetNetworkProperties(ctx)
-	props.MinDappBond = 1
-	props.MaxDappBond = 10
-	props.DappBondDuration = 1000
-	fmt.Println("setprops", app.CustomGovKeeper.SetNetworkProperties(ctx, props))
-	users := []sdk.AccAddress{sdk.AccAddress("user0_______________"), sdk.AccAddress("user1_______________"), sdk.AccAddress("user2_______________")}
-	for _, u := range users {
-		c := sdk.Coins{sdk.NewInt64Coin("ukex", 100000000)}
-		if err := app.BankKeeper.MintCoins(ctx, minttypes.ModuleName, c); err != nil {
+	base := hx.Ctx(app, 10, 1700000000)
+	e := &env{k: app.Layer2Keeper, ms: l2keeper.NewMsgServerImpl(app.Layer2Keeper), bank: app.BankKeeper,
+		mod: authtypes.NewModuleAddress(l2types.ModuleName), spend: authtypes.NewModuleAddress(spendingtypes.ModuleName)}
+	for i := 0; i < nUsers; i++ {
+		a := sdk.AccAddress(fmt.Sprintf("c20user%d____________", i))
+		e.users = append(e.users, a)
+		e.ustr = append(e.ustr, a.String())
+		c := sdk.NewCoins(sdk.NewInt64Coin("ukex", startBal), sdk.NewInt64Coin("foreign", startBal))
+		if err := app.BankKeeper.MintCoins(base, minttypes.ModuleName, c); err != nil {
 			panic(err)
 		}
-		if err := app.BankKeeper.SendCoinsFromModuleToAccount(ctx, minttypes.ModuleName, u, c); err != nil {
+		if err := app.BankKeeper.SendCoinsFromModuleToAccount(base, minttypes.ModuleName, a, c); err != nil {
 			panic(err)
 		}
-		fmt.Println(u.String())
 	}
-	mod := authtypes.NewModuleAddress(l2types.ModuleName)
-	bal := func(c sdk.Context, a sdk.AccAddress) string { return app.BankKeeper.GetAllBalances(c, a).String() }
-	mkDapp := func(name string) l2types.Dapp {
-		return l2types.Dapp{Name: name, Denom: "d" + name, Pool: l2types.LpPoolConfig{Ratio: sdk.NewDecWithPrec(5, 1), Drip: 100},
-			Issuance:   l2types.IssuanceConfig{Premint: sdk.NewInt(7), Postmint: sdk.NewInt(11)},
-			VoteQuorum: sdk.NewDecWithPrec(3, 1), PoolFee: sdk.NewDecWithPrec(1, 2), TeamReserve: users[2].String(),
-			TotalBond: sdk.NewInt64Coin("ukex", 0)}
-	}
-	create := func(c sdk.Context, u int, name string, amt int64) {
-		var err error
-		p := hx.Try(func() {
-			_, err = ms.CreateDappProposal(sdk.WrapSDKContext(c), &l2types.MsgCreateDappProposal{Sender: users[u].String(), Dapp: mkDapp(name), Bond: sdk.NewInt64Coin("ukex", amt)})
-		})
-		fmt.Println("create", u, name, amt, "->", err, p)
-	}
-	bond := func(c sdk.Context, u int, name string, amt int64) {
-		var err error
-		p := hx.Try(func() {
-			_, err = ms.BondDappProposal(sdk.WrapSDKContext(c), &l2types.MsgBondDappProposal{Sender: users[u].String(), DappName: name, Bond: sdk.NewInt64Coin("ukex", amt)})
-		})
-		fmt.Println("bond", u, name, amt, "->", err, p)
-	}
-	reclaim := func(c sdk.Context, u int, name string, amt int64) {
-		var err error
-		p := hx.Try(func() {
-			_, err = ms.ReclaimDappBondProposal(sdk.WrapSDKContext(c), &l2types.MsgReclaimDappBondProposal{Sender: users[u].String(), DappName: name, Bond: sdk.Coin{Denom: "ukex", Amount: sdk.NewInt(amt)}})
-		})
-		fmt.Println("reclaim", u, name, amt, "->", err, p)
-	}
-	show := func(c sdk.Context) {
-		for _, d := range k.GetAllDapps(c) {
-			fmt.Println("  dapp", d.Name, d.Status, d.TotalBond)
+	// the keeper's permission wrapper checks PermHandleBasketEmergency whatever it is asked for; user 3 gets both
+	actor := govtypes.NewDefaultActor(e.users[3])
+	for _, perm := range []govtypes.PermValue{govtypes.PermHandleBasketEmergency, govtypes.PermCreateDappProposalWithoutBond} {
+		if err := app.CustomGovKeeper.AddWhitelistPermission(base, actor, perm); err != nil {
+			panic(err)
 		}
-		for _, b := range k.GetAllUserDappBonds(c) {
-			fmt.Println("  bond", b.DappName, b.User[len(b.User)-4:], b.Bond)
-		}
-		fmt.Println("  module", bal(c, mod))
-		for i, u := range users {
-			fmt.Println("  user", i, bal(c, u))
+		actor, _ = app.CustomGovKeeper.GetNetworkActorByAddress(base, e.users[3])
+	}
+	e.setCfg = func(c sdk.Context, min, max, dur uint64) {
+		p := app.CustomGovKeeper.GetNetworkProperties(c)
+		p.MinDappBond, p.MaxDappBond, p.DappBondDuration = min, max, dur
+		if err := app.CustomGovKeeper.SetNetworkProperties(c, p); err != nil {
+			panic(err)
 		}
 	}
-	end := func(c sdk.Context, t int64) sdk.Context {
-		c2 := c.WithBlockTime(hx.BaseTime.Add(0)).WithBlockHeight(c.BlockHeight() + 1)
-		c2 = c2.WithBlockTime(c.BlockTime().Add(1e9 * 0))
-		_ = t
-		return c2
+	dist := hx.Counter{}
+	newHist := func(min, max, dur uint64) *hist {
+		c, _ := base.CacheContext()
+		e.setCfg(c, min, max, dur)
+		return &hist{e: e, c: c, t0: 1700000000, dist: dist}
 	}
-	_ = end
+
+	// ---- probes: which of the known defects does this tree have?
+	vPrefix, vZero, vCreate := probes(e, newHist)
+
+	var coq []string
+	var js []jcase
+	add := func(h *hist, kind string, min, max, dur uint64) {
+		s, j := h.finishCase(kind, min, max, dur)
+		coq = append(coq, s)
+		js = append(js, j)
+		dist.Inc("history:" + kind)
+	}
+	cfgs := [][3]uint64{{1, 10, 1000}, {2, 5, 300}, {1, 3, 50}, {3, 40, 100000}}
+	for i := 0; i < *n; i++ {
+		cf := cfgs[r.Intn(len(cfgs))]
+		min, max, dur := cf[0], cf[1], cf[2]
+		minThr, maxThr := int64(min)*1000000, int64(max)*1000000
+		h := newHist(min, max, dur)
+		names := append([]string{}, cleanNames[r.Intn(len(cleanNames))][:1+r.Intn(3)]...)
+		kind := "clean"
+		switch x := i % 12; {
+		case x == 3:
+			kind = "zero"
+		case x == 5:
+			kind = "prefix"
+			names = [][]string{{"ab", "abc"}, {"pool", "pool2", "po"}, {"x", "xy"}}[r.Intn(3)]
+		case x == 7:
+			kind = "prefixk" // "abk" is a prefix of "ab"+"kira1..."
+			names = [][]string{{"ab", "abk"}, {"dex", "dexkira1"}}[r.Intn(2)]
+		case x == 9:
+			kind = "empty"
+			names = append([]string{""}, names...)
+			if r.Bool() {
+				names = append(names, "")
+			}
+		case x == 11:
+			kind = "max"
+		case x == 2 || x == 8:
+			kind = "lpmsg"
+		case x == 4 || x == 6 || x == 10:
+			kind = "keeper"
+		}
+		feature := kind
+		lp := kind == "lpmsg" || kind == "keeper"
+		h.bootstrap(r, names, minThr, maxThr, 3+r.Intn(9), feature, lp)
+		if lp { // make most dApps reach the minimum
+			for _, nme := range names {
+				d := e.k.GetDapp(h.c, nme)
+				if d.Name != "" && d.TotalBond.Amount.Int64() < minThr && r.Chance(85) {
+					need := minThr - d.TotalBond.Amount.Int64() + r.Range(0, (maxThr-minThr)/2)
+					if need+d.TotalBond.Amount.Int64() > maxThr {
+						need = maxThr - d.TotalBond.Amount.Int64()
+					}
+					h.bond(r.Intn(3), nme, need, false)
+				}
+			}
+		}
+		// bootstrap deadline
+		if r.Chance(30) {
+			h.tick(int64(dur) / 2)
+			if r.Chance(50) && len(names) > 0 {
+				h.bond(r.Intn(4), names[0], r.Range(1, 5000), false)
+			}
+		}
+		h.tick(int64(dur) + r.Range(0, 10))
+		if r.Chance(40) { // a dApp removed by a failed bootstrap can be proposed again; bonding after launch
+			nme := names[r.Intn(len(names))]
+			h.create(r.Intn(4), nme, minThr/100+r.Range(0, 1000), false, h.newParams(r, false))
+			h.bond(r.Intn(4), nme, r.Range(1, 50000), false)
+			if r.Bool() {
+				u := r.Intn(4)
+				h.reclaim(u, nme, h.userBond(nme, u)/2+1, false)
+			}
+			if r.Bool() {
+				h.tick(int64(dur) + 1)
+			}
+		}
+		switch kind {
+		case "lpmsg":
+			h.lpMessages(r, names)
+		case "keeper":
+			h.keeperOps(r, names)
+		}
+		add(h, kind, min, max, dur)
+	}
+
+	var f strings.Builder
+	f.WriteString("(* written by /verif/harness/cmd/c20 -- observations of the real code *)\n")
+	f.WriteString("From Sekai Require Import Base.Prelude Base.Dec Model.Layer2 Model.C20Check.\n")
+	for i, u := range e.ustr {
+		f.WriteString(fmt.Sprintf("Definition U%d : string := %s.\n", i, hx.Str(u)))
+	}
+	f.WriteString("Definition users : list string := [U0; U1; U2; U3; U4].\n")
+	f.WriteString(fmt.Sprintf("Definition tree : variant := mkVariant %s %s %s.\n", hx.B(vPrefix), hx.B(vZero), hx.B(vCreate)))
+	out.WriteFile("pre.v", f.String())
+	out.WriteFile("cases.txt", strings.Join(coq, "\n")+"\n")
+	out.WriteJSON("meta.json", map[string]string{"case_type": "c20_case", "mismatch_fn": "c20_mismatches tree users", "violation_fn": "c20_violations users"})
+	out.WriteJSON("cases.json", js)
+	steps := 0
+	for _, j := range js {
+		steps += len(j.Steps)
+	}
+	out.WriteJSON("dist.json", map[string]interface{}{"seed": seed, "histories": len(js), "steps": steps, "by_kind": dist,
+		"variant": map[string]bool{"prefix_iteration": vPrefix, "zero_record_blocks_refund": vZero, "creation_bond_unchecked": vCreate}, "users": e.ustr})
+	fmt.Fprintf(os.Stderr, "c20: %d histories, %d steps\n", len(js), steps)
+}
+
+// message-level LP traffic on launched (and missing) dApps, including the shape of the latent
+// rounding exploit: many one-unit swaps, then redemption
+func (h *hist) lpMessages(r *hx.Rng, names []string) {
+	for i := 0; i < 8+r.Intn(8); i++ {
+		n := names[r.Intn(len(names))]
+		u := r.Intn(3)
+		den := h.lpDenom(n)
+		switch r.Intn(8) {
+		case 0, 1, 2:
+			h.lpmsg(0, u, n, "", "ukex", []int64{1, 1, 2, 1000, 250000}[r.Intn(5)], []string{"0", "0.5", "1"}[r.Intn(3)])
+		case 3, 4:
+			amt := h.lpBal(u, den)
+			if amt == 0 || r.Bool() {
+				amt = r.Range(1, 100)
+			}
+			h.lpmsg(1, u, n, "", den, amt, []string{"0", "1"}[r.Intn(2)])
+		case 5:
+			n2 := names[r.Intn(len(names))]
+			h.lpmsg(2, u, n, n2, den, r.Range(1, 100), "1")
+		case 6:
+			h.lpmsg(r.Intn(3), u, "nosuch", "nosuch2", []string{"ukex", "lp/", den}[r.Intn(3)], r.Range(1, 100), "0")
+		default:
+			h.lpmsg(r.Intn(2), u, n, "", "foreign", r.Range(0, 5), "0")
+		}
+	}
+	// exploit shape
+	n := names[0]
+	for i := 0; i < 4; i++ {
+		h.lpmsg(0, 0, n, "", "ukex", 1, "1")
+	}
+	h.lpmsg(1, 0, n, "", h.lpDenom(n), h.lpBal(0, h.lpDenom(n))+1, "1")
+}
+
+func (h *hist) keeperOps(r *hx.Rng, names []string) {
+	fees := []string{"0", "0.01", "0.003", "0.5", "1", "0.000000000000000001"}
+	for u := 0; u < 3; u++ { // everybody buys some LP first, so that redemptions and conversions are mostly valid
+		h.kswap(u, names[r.Intn(len(names))], false, []int64{250000, 1000, 40000}[r.Intn(3)], "0")
+	}
+	for i := 0; i < 10+r.Intn(14); i++ {
+		n := names[r.Intn(len(names))]
+		u := r.Intn(3)
+		den := h.lpDenom(n)
+		fee := fees[r.Intn(len(fees))]
+		switch r.Intn(12) {
+		case 0, 1, 2:
+			h.kswap(u, n, false, []int64{1, 1, 2, 3, 1000, 250000, 7777777}[r.Intn(7)], fee)
+		case 3, 4, 5:
+			amt := h.lpBal(u, den)
+			if amt > 1 && r.Bool() {
+				amt = r.Range(1, amt)
+			} else if amt == 0 {
+				amt = r.Range(1, 50)
+			}
+			if r.Chance(30) {
+				amt = 1
+			}
+			h.kredeem(u, n, den, amt, fee)
+		case 6, 7:
+			n2 := names[r.Intn(len(names))]
+			amt := h.lpBal(u, den)
+			if amt > 1 {
+				amt = r.Range(1, amt)
+			} else {
+				amt = r.Range(1, 10)
+			}
+			h.kconvert(u, n, n2, den, amt)
+		case 8: // adversarial amounts
+			amt := []int64{0, -1, -7, 1 << 41}[r.Intn(4)]
+			if r.Bool() {
+				h.kswap(u, n, false, amt, fee)
+			} else {
+				h.kredeem(u, n, den, amt, fee)
+			}
+		case 9: // wrong denominations / unknown dApp
+			switch r.Intn(3) {
+			case 0:
+				h.kswap(u, n, true, r.Range(1, 100), fee)
+			case 1:
+				h.kredeem(u, n, "ukex", r.Range(1, 100), fee)
+			default:
+				h.kswap(u, "nosuch", false, 5, fee)
+			}
+		case 10: // one-unit swaps then redemption (rounding in the user's favour)
+			for j := 0; j < 3; j++ {
+				h.kswap(u, n, false, 1, "0")
+			}
+			if b := h.lpBal(u, den); b > 0 {
+				h.kredeem(u, n, den, b, "0")
+			}
+		default:
+			for j := 0; j < 3; j++ {
+				h.kredeem(u, n, den, 1, "0")
+			}
+		}
+	}
+}
+
+// probes: three tiny experiments on the real keeper / msg server
+func probes(e *env, newHist func(min, max, dur uint64) *hist) (prefix, zero, create bool) {
 	{
-		fmt.Println("=== zero bond blocks refund")
-		c, _ := ctx.CacheContext()
-		create(c, 0, "aa", 20000)
-		bond(c, 1, "aa", 500)
-		reclaim(c, 1, "aa", 500)
-		show(c)
-		c = c.WithBlockTime(c.BlockTime().Add(2000 * 1e9))
-		p := hx.Try(func() { k.EndBlocker(c) })
-		fmt.Println("endblock", p)
-		show(c)
+		h := newHist(1, 10, 1000)
+		e.k.SetUserDappBond(h.c, l2types.UserDappBond{User: e.ustr[0], DappName: "probeab", Bond: coin("ukex", 5)})
+		prefix = len(e.k.GetUserDappBonds(h.c, "probea")) > 0
 	}
 	{
-		fmt.Println("=== prefix collision")
-		c, _ := ctx.CacheContext()
-		create(c, 0, "ab", 20000)
-		c = c.WithBlockTime(c.BlockTime().Add(500 * 1e9))
-		create(c, 1, "abc", 30000)
-		bond(c, 2, "abc", 700)
-		show(c)
-		c = c.WithBlockTime(c.BlockTime().Add(600 * 1e9))
-		p := hx.Try(func() { k.EndBlocker(c) })
-		fmt.Println("endblock", p)
-		show(c)
-		reclaim(c, 2, "abc", 700)
-		show(c)
+		h := newHist(1, 10, 1000)
+		h.create(0, "probez", 20000, false, params{Denom: "probez", Ratio: "1", Fee: "0"})
+		h.bond(1, "probez", 500, false)
+		h.reclaim(1, "probez", 500, false)
+		err := e.k.ExecuteDappRemove(h.c, e.k.GetDapp(h.c, "probez"))
+		zero = err != nil
 	}
 	{
-		fmt.Println("=== create above max, launch")
-		c, _ := ctx.CacheContext()
-		create(c, 0, "big", 50000000)
-		create(c, 1, "ok", 900000)
-		bond(c, 2, "ok", 200000)
-		bond(c, 2, "ok", 9000000)
-		create(c, 1, "ok", 900000)
-		create(c, 1, "", 10000)
-		create(c, 1, "", 20000)
-		bond(c, 1, "", 5)
-		reclaim(c, 0, "ok", 5)
-		reclaim(c, 2, "ok", 200001)
-		reclaim(c, 2, "ok", 0)
-		reclaim(c, 2, "ok", -5)
-		bond(c, 2, "ok", -5)
-		bond(c, 2, "ok", 0)
-		show(c)
-		c = c.WithBlockTime(c.BlockTime().Add(2000 * 1e9))
-		p := hx.Try(func() { k.EndBlocker(c) })
-		fmt.Println("endblock", p)
-		show(c)
-		fmt.Println("supply", app.BankKeeper.GetSupply(c, "lp/dok"), app.BankKeeper.GetSupply(c, "lp/dbig"))
-		bond(c, 1, "ok", 1000)
-		reclaim(c, 1, "ok", 400)
-		show(c)
-		// LP messages
-		var err error
-		p = hx.Try(func() {
-			_, err = ms.SwapDappPoolTx(sdk.WrapSDKContext(c), &l2types.MsgSwapDappPoolTx{Sender: users[0].String(), DappName: "ok", Token: sdk.NewInt64Coin("ukex", 100), Slippage: sdk.ZeroDec()})
-		})
-		fmt.Println("swapmsg ok", err, p)
-		p = hx.Try(func() {
-			_, err = ms.SwapDappPoolTx(sdk.WrapSDKContext(c), &l2types.MsgSwapDappPoolTx{Sender: users[0].String(), DappName: "nonexist", Token: sdk.NewInt64Coin("ukex", 100), Slippage: sdk.ZeroDec()})
-		})
-		fmt.Println("swapmsg nonexist", err, p)
-		p = hx.Try(func() {
-			_, err = ms.RedeemDappPoolTx(sdk.WrapSDKContext(c), &l2types.MsgRedeemDappPoolTx{Sender: users[0].String(), DappName: "nonexist", LpToken: sdk.Coin{Denom: "lp/", Amount: sdk.NewInt(5)}, Slippage: sdk.ZeroDec()})
-		})
-		fmt.Println("redeemmsg nonexist lp/", err, p)
-		p = hx.Try(func() {
-			_, err = ms.RedeemDappPoolTx(sdk.WrapSDKContext(c), &l2types.MsgRedeemDappPoolTx{Sender: users[0].String(), DappName: "nonexist", LpToken: sdk.Coin{Denom: "lp/dok", Amount: sdk.NewInt(5)}, Slippage: sdk.ZeroDec()})
-		})
-		fmt.Println("redeemmsg nonexist lp/dok", err, p)
-		p = hx.Try(func() {
-			_, err = ms.ConvertDappPoolTx(sdk.WrapSDKContext(c), &l2types.MsgConvertDappPoolTx{Sender: users[0].String(), DappName: "nonexist", TargetDappName: "x", LpToken: sdk.Coin{Denom: "lp/dok", Amount: sdk.NewInt(5)}, Slippage: sdk.ZeroDec()})
-		})
-		fmt.Println("convertmsg nonexist", err, p)
-		// keeper level
-		d := k.GetDapp(c, "ok")
-		var out sdk.Coin
-		p = hx.Try(func() { out, err = k.SwapDappPoolTx(c, users[0], d, d.PoolFee, sdk.NewInt64Coin("ukex", 1000)) })
-		fmt.Println("swap keeper", out, err, p)
-		show(c)
-		d = k.GetDapp(c, "ok")
-		p = hx.Try(func() { out, err = k.RedeemDappPoolTx(c, users[0], d, d.PoolFee, sdk.NewInt64Coin("lp/dok", 100)) })
-		fmt.Println("redeem keeper", out, err, p)
-		show(c)
-		fmt.Println("supply", app.BankKeeper.GetSupply(c, "lp/dok"))
-		_ = govtypes.PermHandleBasketEmergency
+		h := newHist(1, 10, 1000)
+		create = h.create(0, "probem", 10000001, false, params{Denom: "probem", Ratio: "1", Fee: "0"})
 	}
+	return
 }
